@@ -212,11 +212,14 @@ def judge(case, obs):
                 fresh = max(0, off + ln - max(s.high, off)) if off + ln > s.high else 0
                 s.high = max(s.high, off + ln)
                 fresh_total += fresh
-                if fresh_total > peer_md and not rejected:
-                    bad.append(("connlimit", "%s: %d fresh stream bytes sent in total, peer's MAX_DATA is %d" % (where, fresh_total, peer_md)))
+                # after a rejected 0-RTT attempt the count restarts (HANDSHAKE above): everything sent in 0-RTT is
+                # discarded by the server and the limit is its new initial_max_data (RFC 9000 7.4.1, RFC 9001 4.6.2)
+                if fresh_total > peer_md:
+                    bad.append(("connlimit", "%s: %d fresh stream bytes sent in total%s, peer's MAX_DATA is %d"
+                                % (where, fresh_total, " since the rejected 0-RTT attempt" if rejected else "", peer_md)))
                 if fin:
                     s.dead = True
-            if not got_stream and a[0] >= 64 and not rejected:
+            if not got_stream and a[0] >= 64:
                 for sid, s in ss.items():
                     if (s.handed and not s.dead and s.written > s.high and s.high < s.limit and fresh_total < peer_md
                             and (s.local or hs) and not (s.local and (sid >> 2) >= peer_max[(sid >> 1) & 1])):
@@ -428,6 +431,7 @@ class Sim:
         self.high = {}
         self.loads = 0
         self.emitted_guess = 0
+        self.no_lose = False
 
 
 def gen_case(rng, name, cfg=None, nops=None, hostile=0.25):
@@ -471,9 +475,12 @@ def gen_case(rng, name, cfg=None, nops=None, hostile=0.25):
 
     for i in range(n):
         if i == pre and not sim.hs:
-            rej = 1 if (sim.mode == 1 and sim.loads == 0 and rng.random() < 0.3) else 0
+            rej = 1 if (sim.mode == 1 and rng.random() < 0.3) else 0
             ops.append((0, [rej]))
             sim.hs = True
+            # a frame of a rejected 0-RTT packet is not reported lost afterwards (the streams have forgotten it; BufMap::may_loss
+            # requires sent data): no LOSE after a rejection that follows a LOAD
+            sim.no_lose = bool(rej and sim.loads > 0)
             continue
         r = rng.random()
         if r < 0.12:
@@ -532,7 +539,7 @@ def gen_case(rng, name, cfg=None, nops=None, hostile=0.25):
             sid = some_peer() if rng.random() < 0.75 else some_local()
             hi = sim.high.get(sid, 0)
             fs = rng.choice([hi, hi, hi + 1, max(0, hi - 1), 0, window_for(sid), window_for(sid) + 1, 10 ** 6])
-            ops.append((8, [sid, rng.randint(0, 9), fs]))
+            ops.append((8, [sid, rng.randint(0, 9), min(fs, VARINT_MAX)]))      # a final size is a varint on the wire
         elif r < 0.84:
             sid = some_local() if rng.random() < 0.6 else some_peer()
             ops.append((9, [sid, rng.randint(0, 9)]))
@@ -550,7 +557,7 @@ def gen_case(rng, name, cfg=None, nops=None, hostile=0.25):
         elif r < 0.99:
             ops.append((14, [some_peer() if rng.random() < 0.5 else some_local(), rng.randint(0, 5000)]))
         else:
-            if sim.emitted_guess:
+            if sim.emitted_guess and not sim.no_lose:
                 ops.append((15, [rng.randint(0, sim.emitted_guess)]))
     return Case(name, ops, cfg)
 
